@@ -165,7 +165,7 @@ type PathResult struct {
 	Unknowns int
 	Known    []string
 	Notes    []string
-	work     [][]Dec
+	work     []WorkItem
 }
 
 type ReplayInput struct {
@@ -206,8 +206,9 @@ type HarnessResult struct {
 	Samples   []string
 }
 
-func runPath(P *Program, fn *ssa.Function, prefix []Dec, s *Solver, o *ExploreOpts, funcs map[*ssa.Function]int, stubs map[string]int) *PathResult {
-	p := NewPath(prefix, s)
+func runPath(P *Program, fn *ssa.Function, wi WorkItem, s *Solver, o *ExploreOpts, funcs map[*ssa.Function]int, stubs map[string]int) *PathResult {
+	prefix := wi.Prefix
+	p := NewPath(wi, s)
 	m := &Machine{
 		P: P, path: p, globals: map[*ssa.Global]*Value{}, initDone: map[*ssa.Package]bool{},
 		maxSteps: 20_000_000, unwind: 64, cunwind: 100000, funcs: funcs, stubs: stubs,
@@ -242,6 +243,9 @@ func runPath(P *Program, fn *ssa.Function, prefix []Dec, s *Solver, o *ExploreOp
 					continue
 				}
 				v := model[in.T.Name]
+				if in.T.Sort.K == KBV && in.T.Sort.W < 64 {
+					v &= mask(in.T.Sort.W)
+				}
 				res.Inputs = append(res.Inputs, ReplayInput{Label: in.Label, Kind: in.Kind, Value: v})
 			}
 		}
@@ -254,7 +258,7 @@ func explore(P *Program, fn *ssa.Function, o ExploreOpts) *HarnessResult {
 	t0 := time.Now()
 	hr := &HarnessResult{Name: fn.Name(), ByKind: map[OutcomeKind]int{}, Reach: map[string]int{}, Funcs: map[string]int{}, Stubs: map[string]int{}, KnownHit: map[string]int{}}
 	var mu sync.Mutex
-	queue := [][]Dec{nil}
+	queue := []WorkItem{{}}
 	active := 0
 	cond := sync.NewCond(&mu)
 	var npaths int64
@@ -303,7 +307,7 @@ func explore(P *Program, fn *ssa.Function, o ExploreOpts) *HarnessResult {
 				active++
 				mu.Unlock()
 
-				if s.dead {
+				if s.Dead() {
 					s.Close()
 					s, _ = NewSolver(o.Solver, o.Timeout)
 				}
